@@ -11,6 +11,8 @@ TRUSTED = [
     "(K_bound) of the end-to-end theorems and is exercised numerically by bridge/search_C09.py (formulate_parametrized_differs)",
     "EnergyDependentWidth is an opaque function in the relativistic parametrisation theorem, assumed real and >= 0 "
     "(width_real_nonneg); discharged numerically for PhaseSpaceFactor, PhaseSpaceFactorAbs, PhaseSpaceFactorComplex above threshold",
+    "bridge/ser.py attr_suffix: the phsp_factor attribute of EnergyDependentWidth is serialised into the node's head string "
+    "(C09_formulate_only_callers_arguments reads it)",
     "SymPy's symbolic Matrix.inv() is not modelled: its OUTPUT (the regenerated T-matrices) is what the theorems are about",
 ]
 
@@ -34,6 +36,9 @@ def run(chk):
         "theorems are about exact complex values of the regenerated expressions (no floating point), wherever they are defined "
         "(wdMC: all denominators of SymPy's symbolic inverse non-zero)",
         "relativistic unitarity needs rho_i real > 0 (above threshold, phase-space variants that are real there) and K-hat real symmetric",
+        "unitarity of the relativistic K-matrix is NOT claimed for poles below a channel threshold with PhaseSpaceFactor / "
+        "PhaseSpaceFactorComplex: width_real_nonneg fails there (C09_width_not_real_below_threshold_refuted; known finding "
+        "kmatrix_subthreshold_pole_not_unitary)",
         "per-size link from code to formula for n_channels = 1, 2 (quick) and 3 (thorough); the algebraic theorem itself holds for all n",
     ]
     ok = _chain(chk, ["1,2"], "Gen_C09.v", "C09_lemmas.v", "C09.v", 900)
